@@ -918,7 +918,10 @@ def spec_layer_a(ctx, c):
         seen = cr + (xm if w[1] != "0" else [])
         tokb = bytes.fromhex(w[2]) if w[2] != "-" else b""
         base = int.from_bytes(tokb[:8], "big") & ((1 << 44) - 1)
-        if not any(a == w[2] for a, _ in cr + xm):
+        # every token libcoap derives from a state token carries a retry count >= 1 in its upper 20 bits; a token without one is
+        # the application's own, whatever its value (fix f4071ae; thorough seed 13: token 16 next to state token 0x100000000016)
+        derived = (int.from_bytes(tokb[:8], "big") >> 44) != 0
+        if derived and not any(a == w[2] for a, _ in cr + xm):
             cand = {a for a, st in seen if (st & ((1 << 44) - 1)) == base}
             if len(cand) == 1 and i != list(cand)[0]:
                 return "the abandoned PDU carries a token libcoap derived from the state token of the transfer with application token %s, " \
